@@ -79,6 +79,7 @@ class Sim(object):
         self.escaped = []
         self.failed_cids = {}
         self.zombies = set()
+        self.leader_before = {}
         self.inc_at_leader = {}
         self.confs = {}
         self.quiet = False
@@ -716,6 +717,14 @@ class Sim(object):
             self.prev_commit[name] = c
             if self.max_inflight_ae >= 2:
                 self.commit_after_pipelining = True
+            # A leader decides a commit by counting replicas only for an entry of its own term (earlier entries are
+            # committed indirectly): an old-term entry on a majority can still be lacked by a later leader (Raft fig. 8).
+            if obj._isLeader() and prev >= 1 and self.leader_before.get(name):
+                top = entry_at(obj, c)
+                if top is not None and top[2] != obj.raftCurrentTerm:
+                    self.V('C04', 'leader-committed-by-counting-old-term-entry',
+                           'leader %s of term %d advanced its commit index %d -> %d where the newest committed entry has term %d' % (
+                               name, obj.raftCurrentTerm, prev, c, top[2]))
 
     def check(self, light=False):
         for (to, frm, t, mx) in self.pending_old_ae:
@@ -754,6 +763,7 @@ class Sim(object):
         for name in self.live():
             self.scan_commit(name, self.nodes[name], advanced)
         # majority at the step of the advance
+        self.advanced_now = advanced
         for name, p in advanced:
             e = self.G.get(p)
             if e is None:
@@ -845,6 +855,7 @@ class Sim(object):
         self.role_events = []
         if not light or self.step_no % 5 == 0:
             self.check_log_matching()
+        self.leader_before = dict((n, self.nodes[n]._isLeader()) for n in self.live())
         for h in self.after_step_hooks:
             h()
 
